@@ -22,6 +22,9 @@ import (
 	"verif/harness/internal/rng"
 )
 
+// replayed rounds use instance numbers disjoint from the generated ones
+const replayBase = 1 << 20
+
 type key struct {
 	w    int
 	inst int
@@ -30,6 +33,7 @@ type key struct {
 var (
 	baseline = map[key]string{}
 	unstable = map[int]bool{}
+	checked  = map[int]int{}
 )
 
 func safeRun(w workload, inst int) (res string) {
@@ -47,9 +51,12 @@ func base(wi, inst int) string {
 		return d
 	}
 	d := safeRun(workloads[wi], inst)
-	// the digest must not depend on iteration order or shuffles
-	if d2 := safeRun(workloads[wi], inst); d2 != d {
-		unstable[wi] = true
+	// the digest must not depend on iteration order or shuffles (re-checked on the first instances of each workload)
+	if checked[wi] < 2 {
+		checked[wi]++
+		if d2 := safeRun(workloads[wi], inst); d2 != d {
+			unstable[wi] = true
+		}
 	}
 	baseline[k] = d
 	return d
@@ -60,7 +67,7 @@ type slot struct {
 }
 
 type outcome struct {
-	diffs   []string
+	res     [][]string
 	hang    bool
 	elapsed time.Duration
 }
@@ -89,18 +96,7 @@ func runRound(slots []slot, reps int, deadline time.Duration) outcome {
 	case <-time.After(deadline):
 		return outcome{hang: true, elapsed: time.Since(t0)}
 	}
-	var o outcome
-	o.elapsed = time.Since(t0)
-	for j, s := range slots {
-		want := baseline[key{s.wi, s.inst}]
-		for r, got := range res[j] {
-			if got != want {
-				o.diffs = append(o.diffs, fmt.Sprintf("goroutine=%d wl=%s inst=%d rep=%d got=%s want=%s", j, workloads[s.wi].name, s.inst, r, got, want))
-				break
-			}
-		}
-	}
-	return o
+	return outcome{res: res, elapsed: time.Since(t0)}
 }
 
 func wlIndex(name string) int {
@@ -161,9 +157,6 @@ func main() {
 	}
 
 	doRound := func(procs int, slots []slot, reps int) {
-		for _, s := range slots {
-			base(s.wi, s.inst)
-		}
 		// announce the round first: under GORACE=halt_on_error=1 the process dies at the first report
 		fmt.Fprintln(out, "# START "+caseLine(procs, len(slots), reps, slots, map[int]string{}))
 		out.Flush()
@@ -176,13 +169,20 @@ func main() {
 			for j := range slots {
 				status[j] = "HANG"
 			}
-		}
-		for _, d := range o.diffs {
-			mism++
-			var j int
-			fmt.Sscanf(d, "goroutine=%d", &j)
-			status[j] = "DIFF"
-			fmt.Fprintf(out, "# DIFF %s\n", d)
+		} else {
+			// The reference digests are computed AFTER the concurrent run (one goroutine, same instance
+			// numbers): a lazily filled package-level cache must meet its first writers concurrently.
+			for j, s := range slots {
+				want := base(s.wi, s.inst)
+				for r, got := range o.res[j] {
+					if got != want {
+						mism++
+						status[j] = "DIFF"
+						fmt.Fprintf(out, "# DIFF goroutine=%d wl=%s inst=%d rep=%d got=%s want=%s\n", j, workloads[s.wi].name, s.inst, r, got, want)
+						break
+					}
+				}
+			}
 		}
 		cases++
 		gruns += len(slots) * reps
@@ -237,8 +237,12 @@ func main() {
 			if len(slots) == 1 { // a single workload: two goroutines, each with its own instances of it
 				slots = append(slots, slot{slots[0].wi, 1})
 			}
-			if len(slots) > 0 {
-				doRound(procs, slots, rounds)
+			for r := 0; r < rounds && len(slots) > 0; r++ {
+				cur := make([]slot, len(slots))
+				for j, sl := range slots {
+					cur[j] = slot{sl.wi, replayBase + r*len(slots) + j}
+				}
+				doRound(procs, cur, 2)
 			}
 		}
 		fmt.Fprintf(out, "STAT cases=%d\nSTAT nontrivial=%d\nSTAT mismatches=%d\n", cases, len(distinct), mism)
@@ -298,20 +302,21 @@ func main() {
 		round := 0
 		for time.Now().Before(until) {
 			var slots []slot
+			fresh := (pi*1000 + round) * k // instance numbers never seen before: new contents, new keys
 			switch round % 3 {
-			case 0: // the same workload on every goroutine, own instances
+			case 0: // the same workload on every goroutine, own instances with different contents
 				wi := enabled[(round/3)%len(enabled)]
 				for j := 0; j < k; j++ {
-					slots = append(slots, slot{wi, j})
+					slots = append(slots, slot{wi, fresh + j})
 				}
-			case 1: // the same workload with identical contents (same hash values), separately built
+			case 1: // the same workload with identical contents (same keys, same hash values), separately built
 				wi := enabled[r.Intn(len(enabled))]
 				for j := 0; j < k; j++ {
-					slots = append(slots, slot{wi, 0})
+					slots = append(slots, slot{wi, fresh})
 				}
 			default: // a random mix
 				for j := 0; j < k; j++ {
-					slots = append(slots, slot{enabled[r.Intn(len(enabled))], j})
+					slots = append(slots, slot{enabled[r.Intn(len(enabled))], fresh + j})
 				}
 			}
 			doRound(p, slots, 2)
